@@ -118,4 +118,26 @@ def derivePublicKey (ckd : X → Nat → X) : DPK X P → Derived X P
 def DPK.IsDefinite (k : DPK X P) : Prop :=
   k.hasWildcard = false ∧ k.hasHardenedStep = false ∧ k.isMultipath = false
 
+
+/-! ### the BIP67 sort key (src/primitives/threshold.rs) -/
+
+/-- `bip67_sort_key(pk) = (pk.inner.serialize(), !pk.compressed)`: the 33-byte compressed
+encoding, ties broken compressed-first.  The Rust tuple `([u8; 33], bool)` is represented by the
+byte string `compressed33 ++ [flag]`, whose lexicographic order is the tuple order because all
+first components have the same length (`Lemmas/SortKeys.lean: bip67SortKey_le_iff`). -/
+def bip67SortKey (compressed33 : List UInt8) (isCompressed : Bool) : List UInt8 :=
+  compressed33 ++ [if isCompressed then 0 else 1]
+
+/-- `PublicKey::inner.serialize()` computed from the serialisation that is pushed: a 33-byte
+key is already compressed, a 65-byte key `04 ‖ x ‖ y` compresses to `(02 | y odd) ‖ x` -/
+def compressSer (ser : List UInt8) : List UInt8 :=
+  if ser.length = 65 then
+    (if (ser.getLast?.getD 0) % 2 = 0 then 0x02 else 0x03) :: (ser.drop 1).take 32
+  else ser
+
+/-- the key `into_sorted_bip67` (33/65-byte ECDSA keys) resp. `into_sorted_bip67_xonly`
+(32-byte keys: the x-only serialisation itself) sorts by, from the pushed serialisation -/
+def sortKeyOfSer (ser : List UInt8) : List UInt8 :=
+  if ser.length = 32 then ser else bip67SortKey (compressSer ser) (decide (ser.length ≠ 65))
+
 end MsVerif.Keys
